@@ -68,7 +68,7 @@ def run(ctx):
     repo.setup()
     from ..core import quiet_logging
     quiet_logging()
-    from TotalDepth.LIS.core import LogiRec, File, RepCode
+    from TotalDepth.LIS.core import LogiRec, File, RepCode, LisGen
     rng = ctx.subrng('c08')
     classes = ['bytes', 'u8', 'i16', 'i32', 'float']
     ntests = 0
@@ -254,6 +254,38 @@ def run(ctx):
                     break
             if not bad and d.frameSize() != sum(c['size'] for c in chans):
                 bad = 'frame size %d expected %d' % (d.frameSize(), sum(c['size'] for c in chans))
+        # second route: the library's own composer of a format specification from an entry block set and channel blocks,
+        # LisGen.LogPassGen (ChannelSpec.dsbBytes packs the block) - composed TWICE from the same channel list, as a caller
+        # writing two log passes with the same channels does; both decode to the channels given (after the X channel the
+        # composer adds when the X axis is recorded in the frame).
+        spacing = chosen.get(8, (0, 0, None))[2]
+        lg_direct = chosen.get(13, (1, 66, 0))[2] == 0
+        # (the composer needs a numeric frame spacing and, to name the X channel it adds, frame spacing units)
+        if not bad and spacing is not None and (not lg_direct or chosen.get(9, (0, 65, None))[2] is not None):
+            try:
+                chl = [LisGen.Channel(LisGen.ChannelSpec(c['mnem'], b'SERVID', b'SERVORD1', c['units'], c['api'], 1, c['size'], c['samples'], c['rc']), None) for c in chans]
+                if rng.random() < 0.3:
+                    chl = tuple(chl)
+                xrc = rng.choice([68, 73])
+                direct = chosen.get(13, (1, 66, 0))[2] == 0
+                xname = b'TIME' if chosen.get(5, (1, 66, 1))[2] == 0 else b'DEPT'
+                xunits = chosen.get(9, (0, 65, None))[2]
+                for rep in range(2):
+                    lpg = LisGen.LogPassGen(ebs, chl, 1000.0, xrc, None)
+                    d2 = LogiRec.LrDFSRRead(lis_file_for(File, bytes(lpg.lrBytesDFSR()), rng))
+                    got2 = [(b_.mnem, b_.units, b_.size, b_.samples(0), b_.repCode) for b_ in d2.dsbBlocks]
+                    want2 = ([(xname, xunits, 4, 1, xrc)] if direct else []) + [(c['mnem'], c['units'], c['size'], c['samples'], c['rc']) for c in chans]
+                    if got2 != want2:
+                        bad = 'composition %d by LisGen.LogPassGen from the same channel list decodes to channels %r, composed from %r' % (rep + 1, got2, want2)
+                        break
+                    if len(chl) != nch:
+                        bad = 'LisGen.LogPassGen changed the channel list it was given: %d channels, was %d' % (len(chl), nch)
+                        break
+                    if [tuple(d2.ebs[t]) for t in range(1, 17) if t != 10] != [tuple(d.ebs[t]) for t in range(1, 17) if t != 10]:
+                        bad = 'LisGen.LogPassGen: entry blocks differ from those of EntryBlockSet.lisBytes()'
+                        break
+            except Exception as e:
+                bad = 'LisGen.LogPassGen route raised %s: %s' % (type(e).__name__, e)
         if bad:
             ctx.fail('LIS DFSR: %s; case %s' % (bad, json.dumps(case)[:600]), case, sig=dict(kind='dfsr'))
         if nd == 5:
